@@ -130,7 +130,9 @@ class InterpBase:
         self.pairs_base: Dict[Any, Length] = {}
         self.opaque_funcs: set = set()
         self.default_factories: Dict[str, Any] = {}
+        self.counter_info: Dict[str, Any] = {}  # Counter allocation -> (counted sequence, exact groups or None)
         self.number_locals: bool = False
+        self.pos_tagger = None  # rule-supplied: provenance tags for position values (which dimension a position ranges over)
         self.class_store: Dict[Tuple[str, str], Any] = {}  # class attributes set at class creation / written later
         self.class_init_phase: bool = False
         self.widened: bool = False
@@ -147,6 +149,9 @@ class InterpBase:
     # ==================================================================================
     # bookkeeping
     # ==================================================================================
+    def pos_tags(self, length) -> frozenset:
+        return frozenset() if self.pos_tagger is None else frozenset(self.pos_tagger(self, length))
+
     def site_id(self, kind: str, node) -> int:
         """Stable id of a loop/sort site in its dynamic context (call string, active tokens, unrolling index):
         re-evaluating the same site during a fixpoint iteration yields the same token/permutation names."""
@@ -215,6 +220,10 @@ class InterpBase:
             d["info"] = info
 
     def oblige(self, kind: str, node, ok: bool, msg: str, **info) -> None:
+        # operands=...: the checked values; a failure on a value read from a weakly updated list (tag WEAK: placeholder and
+        # final elements joined) is recorded as weak — the analysis cannot tell whether the placeholder survives
+        operands = info.pop("operands", ())
+        weak = any("WEAK" in getattr(x, "prov", ()) for x in operands)
         k = self._site_key(node, kind)
         d = self.obligations.get(k)
         if d is None:
@@ -231,6 +240,7 @@ class InterpBase:
         d["visits"] += 1
         if not ok:
             d["ok"] = False
+            d["weak"] = d.get("weak", True) and weak
             if msg not in d["msgs"]:
                 d["msgs"].append(msg)
         elif not d["msgs"]:
